@@ -1,4 +1,5 @@
 use super::swift_utils::{parse_alphanumeric, parse_exact_length};
+use crate::errors::ParseError;
 use crate::traits::SwiftField;
 use serde::{Deserialize, Serialize};
 
@@ -25,6 +26,13 @@ impl SwiftField for Field26T {
     where
         Self: Sized,
     {
+        // The parser works with byte offsets: refuse multi-byte characters up front
+        if !input.is_ascii() {
+            return Err(ParseError::InvalidFormat {
+                message: "Field 26T must contain only ASCII characters".to_string(),
+            });
+        }
+
         // Must be exactly 3 characters
         let type_code = parse_exact_length(input, 3, "Field 26T type code")?;
 
